@@ -43,6 +43,9 @@ def plan(tier, seed):
         js += pageloop.v2_jobs("C03", tier)
     except ImportError:
         pass
+    # pages of one chunk decode independently of each other: no scratch state at module level in the reader modules
+    js.append(dict(name="C03-lemma-no-module-buffers", kind="pyfunc", timeout=300,
+                   payload=dict(func="vf.pyshim.lemma_c20:no_module_buffers")))
     extra = dict(
         explanation="Bounded symbolic model checking of the decoders' LLVM IR with the argument patterns of their "
                     "call sites in core.py (levels: width 1..3, 4-byte length prefix, item size 1; dictionary "
